@@ -28,7 +28,7 @@ func vfGenShutdownSpecs(tier string, seed uint64, race bool) []vfSpec {
 	qs := []int{0, 1, 8, 200}
 	modes := []string{"one", "cross-1", "cross0", "cross+1"}
 	idx := 0
-	mk := func(q int, mode string, faults []fid) {
+	mk := func(q int, mode string, faults []fid, extra ...vfFault) {
 		r := vfNewRand(vfHash(seed, uint64(idx), 0xC08))
 		sp := vfSpec{Prop: "C08", Kind: "shutdown", ID: fmt.Sprintf("C08-sd-%d", idx), Seed: r.Uint64()}
 		sp.A, sp.B = vfSampleSides(r, 100)
@@ -53,6 +53,10 @@ func vfGenShutdownSpecs(tier string, seed uint64, race bool) []vfSpec {
 			}
 			sp.Link.Script = append(sp.Link.Script, ff)
 			desc += fmt.Sprintf("%d.%d.%s ", f.dir, f.ord, f.act)
+		}
+		for _, ff := range extra {
+			sp.Link.Script = append(sp.Link.Script, ff)
+			desc += fmt.Sprintf("%d.%s%d.%s ", ff.Dir, ff.Kind, ff.Nth, ff.Act)
 		}
 		sp.X = map[string]int64{"q": int64(q)}
 		sp.XS = map[string]string{"mode": mode, "faults": desc}
@@ -109,6 +113,31 @@ func vfGenShutdownSpecs(tier string, seed uint64, race bool) []vfSpec {
 			}
 			for k := 0; k < triples; k++ {
 				mk(q, mode, []fid{singles[r.Intn(len(singles))], singles[r.Intn(len(singles))], singles[r.Intn(len(singles))]})
+			}
+		}
+	}
+	// a duplicate of the peer's DATA that arrives while the SHUTDOWN is outstanding (SHUTDOWN-SENT), the first
+	// SHUTDOWN (or two) lost: the duplicate is answered with SACK + SHUTDOWN and the sequence still completes
+	for _, q := range []int{1, 8} {
+		for _, mode := range modes {
+			for _, late := range []int64{150000, 400000, 900000} {
+				for nd := 1; nd <= 2; nd++ {
+					var ex []vfFault
+					for k := 1; k <= nd; k++ {
+						ex = append(ex, vfFault{Dir: 0, Kind: "SHUTDOWN", Nth: k, Act: "drop"})
+					}
+					for k := 1; k <= 3; k++ {
+						ex = append(ex, vfFault{Dir: 1, Kind: "DATA", Nth: k, Act: "dup", DelayUs: late},
+							vfFault{Dir: 1, Kind: "I-DATA", Nth: k, Act: "dup", DelayUs: late})
+					}
+					mk(q, mode, nil, ex...)
+					if race {
+						break
+					}
+				}
+				if race {
+					break
+				}
 			}
 		}
 	}
